@@ -127,11 +127,18 @@ LPrologue == [id |-> "capi-prologue", global |-> TRUE,
 
 LInit == cbound = [h \in LHandles |-> <<>>] /\ chist = <<>> /\ cdone = FALSE /\ args = CHOOSE a \in ValidArgs : TRUE
 Live(h) == cbound[h] # <<>>
-LCreate(h, api, doc, s, nf) ==
-  /\ ~Live(h) /\ (nf => api = "c")
+LDir(h) == "od_c16_" \o ToString(h)
+LSchema(h) == LDir(h) \o "/world_builder_declarations.schema.json"
+(* od: the constructor is asked to write its declaration files into a directory of the handle's own; the files are
+   looked for (and removed) after the twin's and after the wrapper's construction: every world that asks gets them *)
+LCreate(h, api, doc, s, nf, od) ==
+  /\ ~Live(h) /\ (nf => (api = "c" /\ ~od))
   /\ cbound' = [cbound EXCEPT ![h] = <<api, doc, s>>]
-  /\ chist' = chist \o << [op |-> "create", h |-> 10 + h, api |-> "native", doc |-> doc, seed |-> Seeds[s]],
-                           [op |-> "create", h |-> h, api |-> api, doc |-> doc, seed |-> Seeds[s], null_flag |-> nf] >>
+  /\ chist' = chist \o (IF od THEN <<[op |-> "mkdir", path |-> LDir(h)]>> ELSE <<>>)
+                     \o << [op |-> "create", h |-> 10 + h, api |-> "native", doc |-> doc, seed |-> Seeds[s]] @@ (IF od THEN [outdir |-> LDir(h) \o "/"] ELSE <<>>) >>
+                     \o (IF od THEN <<[op |-> "exists", path |-> LSchema(h), want |-> TRUE, remove |-> TRUE]>> ELSE <<>>)
+                     \o << [op |-> "create", h |-> h, api |-> api, doc |-> doc, seed |-> Seeds[s], null_flag |-> nf] @@ (IF od THEN [outdir |-> LDir(h) \o "/"] ELSE <<>>) >>
+                     \o (IF od THEN <<[op |-> "exists", path |-> LSchema(h), want |-> TRUE, remove |-> TRUE]>> ELSE <<>>)
 LRelease(h) ==
   /\ Live(h)
   /\ cbound' = [cbound EXCEPT ![h] = <<>>]
@@ -154,7 +161,7 @@ Singles == {<<"temperature", "temperature", PT>>, <<"temperature_g", "temperatur
 LFinish == Len(chist) >= MaxCHist /\ ~cdone /\ cdone' = TRUE /\ UNCHANGED <<args, cbound, chist>>
 LNext == \/ LFinish
          \/ /\ Len(chist) < MaxCHist /\ ~cdone /\ UNCHANGED <<args, cdone>>
-            /\ \/ \E h \in LHandles, api \in Apis, doc \in LDocs, sd \in LSeeds, nf \in BOOLEAN : LCreate(h, api, doc, sd, nf)
+            /\ \/ \E h \in LHandles, api \in Apis, doc \in LDocs, sd \in LSeeds, nf \in BOOLEAN, od \in BOOLEAN : LCreate(h, api, doc, sd, nf, od)
                \/ \E h \in LHandles : LRelease(h)
                \/ \E h \in LHandles, i \in LProbes, d \in {2, 3}, ps \in LLists : LProps(h, i, d, ps)
                \/ \E h \in LHandles, i \in LProbes, d \in {2, 3}, v \in Singles : LSingle(h, i, d, v)
